@@ -58,10 +58,8 @@ func (m *Params) ParamSetPairs() paramtypes.ParamSetPairs {
 }
 
 func (m *Params) validate() error {
-	if m.EnableVesting {
-		return validatePerBlockReward(m.PerBlockReward)
-	}
-	return nil
+	// SetParamSet validates PerBlockReward whether or not vesting is enabled, so genesis validation must too
+	return validatePerBlockReward(m.PerBlockReward)
 }
 
 func DefaultParams() Params {
